@@ -324,13 +324,19 @@ func (c *Child) parseLine(line string) (sc sysc, ok bool) {
 		delete(c.pend, pid)
 	}
 	op := strings.IndexByte(rest, '(')
-	eq := strings.LastIndex(rest, ") = ")
-	if op < 0 || eq < 0 || eq < op {
+	eqs := strings.LastIndex(rest, " = ")
+	if op < 0 || eqs < 0 {
 		return sc, false
 	}
+	// strace pads the closing parenthesis to a column: ")      = 0".
+	head := strings.TrimRight(rest[:eqs], " ")
+	if !strings.HasSuffix(head, ")") || len(head)-1 < op {
+		return sc, false
+	}
+	eq := len(head) - 1
 	sc.name = rest[:op]
 	sc.args = splitArgs(rest[op+1 : eq])
-	rs := strings.Fields(rest[eq+4:])
+	rs := strings.Fields(rest[eqs+3:])
 	if len(rs) == 0 {
 		return sc, false
 	}
